@@ -1,10 +1,15 @@
 package vh
 
 import (
+	"net"
+	"net/http"
+	"strings"
+
 	"bufio"
 	"encoding/json"
 	"flag"
 	"fmt"
+	wsmixer "github.com/henrylee2cn/erpc/v6/mixer/websocket"
 	"os"
 	"sync"
 	"sync/atomic"
@@ -334,7 +339,47 @@ func runCorr(rec *Rec, sc *CorrScenario, n int) {
 	}()
 	type pair struct{ c, s erpc.Session }
 	var pairs []pair
-	for i := 0; i < sc.Sessions; i++ {
+	if strings.HasPrefix(sc.Proto, "ws") {
+		// the websocket mixer end to end: an http server with the mixer's handler on a loopback port, clients that
+		// dial it with the mixer's dial plugin (http upgrade, websocket frames, sub-protocol)
+		sub := protoFunc(sc.Proto)
+		cli.Close()
+		cli = erpc.NewPeer(erpc.PeerConfig{DefaultBodyCodec: "json"}, wsmixer.NewDialPlugin("/"))
+		corrRoutes(cli)
+		lis, err := net.Listen("tcp", "127.0.0.1:0")
+		if err != nil {
+			rec.Emit("SetupFailed")
+			return
+		}
+		hs := &http.Server{Handler: wsmixer.NewServeHandler(srv, nil, sub)}
+		go hs.Serve(lis)
+		defer hs.Close()
+		for i := 0; i < sc.Sessions; i++ {
+			known := map[erpc.Session]bool{}
+			srv.RangeSession(func(x erpc.Session) bool { known[x] = true; return true })
+			cs, st := cli.Dial(lis.Addr().String(), sub)
+			if !st.OK() {
+				rec.Emit("SetupFailed", "why", st.String())
+				return
+			}
+			var ss erpc.Session
+			WaitUntil(time.Second, func() bool {
+				srv.RangeSession(func(x erpc.Session) bool {
+					if !known[x] {
+						ss = x
+					}
+					return true
+				})
+				return ss != nil && ss.Health()
+			})
+			if ss == nil {
+				rec.Emit("SetupFailed", "why", "no server session")
+				return
+			}
+			pairs = append(pairs, pair{cs, ss})
+		}
+	}
+	for i := 0; i < sc.Sessions && !strings.HasPrefix(sc.Proto, "ws"); i++ {
 		a, b := Pipe(fmt.Sprintf("C%d.%d", n, i), fmt.Sprintf("S%d.%d", n, i))
 		var ss erpc.Session
 		sd := make(chan struct{})
